@@ -436,6 +436,13 @@ func (s *Selection) SelectAShellWord() (bpos, epos int) {
 		}
 
 		s.cursor.Move(s.line.ForwardEnd(s.line.TokenizeSpace, cpos))
+
+		// No more word to move to (eg. at the end of a line
+		// in a multiline buffer): stop instead of looping forever.
+		if s.cursor.Pos() == cpos {
+			break
+		}
+
 		cpos = s.cursor.Pos()
 	}
 
